@@ -2,7 +2,10 @@
 
 tie      : translator settings.py -> coq/C17/gen/Settings.v (theorems of Property.v are re-proved over it)
            + correspondence: event histories on the real classes vs `run` of the generated model
-search   : the same histories checked directly against the property on the real classes
+direct   : every observer of every class after every event of a structured grid of histories (harness/c17_spec.py:
+           skeletons x construction placement x argument cells) compared with the reference SPECIFICATION
+           (c17_spec.Spec: independent of the translated model) - run on every check, and it is the failing-input
+           search when the translator rejects the source or a law no longer proves; findings are shrunk
 """
 import importlib
 import itertools
@@ -11,7 +14,8 @@ import os
 import random
 import sys
 
-from . import common, settings_tr
+from . import common, settings_tr, c17_spec
+from .c17_spec import COMP_SPEC
 
 
 def regenerate():
@@ -51,16 +55,25 @@ class Real:
         t = self.torch
         self.dt = {"torch.float": t.float, "torch.double": t.double, "torch.half": t.half}
         self.slots = list(settings_tr.SLOTS) + ["probe_vectors"]
-        self.saved = {c: {a: self.cls[c].__dict__[a] for a in self.slots if a in self.cls[c].__dict__} for c in self.prim}
+        # every class whose attributes a (possibly mutated) setter could write: the setting classes and their bases
+        self.owners = []
+        for c in self.prim:
+            for k in self.cls[c].__mro__:
+                if k is not object and k not in self.owners:
+                    self.owners.append(k)
+        self.saved = {k: {a: k.__dict__[a] for a in self.slots if a in k.__dict__} for k in self.owners}
         self.base_obs = None
         self.base_obs = [self.observe_cls(c) for c in self.prim]
+        dp = self.cls.get("deterministic_probes")
+        self.dp = dp if (dp is not None and "probe_vectors" in dp.__dict__) else None
+        self.spec = c17_spec.Spec(meta, self.base_obs, lambda a: self.encode(self.decode(a)))
 
     def reset(self):
-        for c in self.prim:
-            k = self.cls[c]
+        for k in self.owners:
             for a in self.slots:
-                if a in self.saved[c]:
-                    setattr(k, a, self.saved[c][a])
+                if a in self.saved[k]:
+                    if k.__dict__.get(a, self) is not self.saved[k][a]:
+                        setattr(k, a, self.saved[k][a])
                 elif a in k.__dict__:
                     delattr(k, a)
 
@@ -71,21 +84,20 @@ class Real:
         return v
 
     def encode(self, v):
-        """real value -> comparable/encodable token: None | bool | ('tok', n)"""
+        """real value -> comparable/encodable token: None | bool | ('tok', n[, text]);  n = index in the
+        translator's constant table (0 = numeric zero), the integer itself for harness values >= 1000,
+        -2/-3 (+ text) for values unknown to the table"""
         t = self.torch
         if v is None or isinstance(v, bool):
             return v
-        if isinstance(v, t.dtype):
-            name = {t.float: "torch.float", t.double: "torch.double", t.half: "torch.half"}.get(v)
-            if name is None or name not in self.meta["consts"]:
-                return ("tok", -2)
-            return ("tok", self.meta["consts"].index(name))
-        if isinstance(v, int) and v >= 1000:
-            return ("tok", v)
-        r = repr(v)
+        r = c17_spec.canon_repr(v, t)
         if r in self.meta["consts"]:
             return ("tok", self.meta["consts"].index(r))
-        return ("tok", -3)
+        if isinstance(v, t.dtype):
+            return ("tok", -2, r)
+        if isinstance(v, int) and v >= 1000:
+            return ("tok", v)
+        return ("tok", -3, r[:60])
 
     def observe_cls(self, c):
         k = self.cls[c]
@@ -116,15 +128,21 @@ class Real:
 
     def run(self, hist):
         """hist: list of events ('new', kid, args) | ('enter', i) | ('exit', i) | ('exitexc', i)
-        returns list of ('ok', sparse_obs, swallowed) | ('err', repr)"""
+        returns list of ('ok', sparse_obs, swallowed, stale_probe_cache) | ('err', repr)
+
+        probe cache: whenever deterministic_probes is on after an event, a tagged stand-in for the probe vectors is
+        put into the (empty) cache, as _inv_quad_logdet does; a stand-in that survives a later enter/exit of a
+        deterministic_probes context and is visible while the flag is on is reported as stale."""
         self.reset()
-        objs = []
+        objs, objk = [], []
         out = []
+        ndp = 0
         for e in hist:
             try:
                 sw = False
                 if e[0] == "new":
                     objs.append(self.cls[e[1]](*[self.decode(a) for a in e[2]]))
+                    objk.append(e[1])
                 elif e[0] == "enter":
                     objs[e[1]].__enter__()
                 elif e[0] == "exit":
@@ -132,7 +150,16 @@ class Real:
                 else:
                     ex = ValueError("boom")
                     sw = bool(objs[e[1]].__exit__(ValueError, ex, None))
-                out.append(("ok", self.observe(), sw))
+                stale = False
+                if self.dp is not None:
+                    if e[0] != "new" and "deterministic_probes" in c17_spec.touched(self.meta, objk[e[1]]):
+                        ndp += 1
+                    if self.dp.on() is True:
+                        pv = self.dp.probe_vectors
+                        if pv is not None and pv != ("probes", ndp):
+                            stale = True
+                        self.dp.probe_vectors = ("probes", ndp)
+                out.append(("ok", self.observe(), sw, stale))
             except Exception as ex:
                 out.append(("err", repr(ex)[:100]))
                 break
@@ -149,8 +176,9 @@ def arg_pool(meta, k):
         if kind == "KFlag":
             return [[True], [False]]
         if kind == "KValue":
-            return [[1005], [1007], [None]]
-        return [[a, b, c] for a in (None, 1005) for b in (None, 1007) for c in (None, 1009)]
+            return [[1005], [1007], [0], [None]]
+        base = [[a, b, c] for a in (None, 1005) for b in (None, 1007) for c in (None, 1009)]
+        return base[:4] + [[0.0, None, None], [None, 0.0, 0.0]] + base[4:]      # incl. the falsy value 0.0
     n = len(meta["comp_info"][k]["params"])
     kinds = {meta["kinds"][p[1]] for p in meta["comp_info"][k]["parts"]}
     if kinds == {"KFlag"}:
@@ -221,9 +249,10 @@ def random_hist(rng, meta, length, well_nested=True, kids=None):
 # property predicates evaluated directly on the implementation's observations (search / triage)
 
 def property_failure(meta, hist, obs):
-    """Returns a description if the observed run violates C17 on a well-nested history."""
+    """bare scoping predicate (no specification of the effect needed): construct changes nothing, enter/exit touch
+    only the object's own classes, exit restores what was in force before the matching enter.
+    Returns None or (category, event index, text)."""
     stack = []
-    before = [[]]          # observation before event j  (sparse diffs; [] = defaults)
     cur = []
     objk = []
     for j, e in enumerate(hist):
@@ -231,71 +260,27 @@ def property_failure(meta, hist, obs):
             break
         o = obs[j]
         if o[0] == "err":
-            # an exception on a well-nested history: construct/enter/exit must not fail
-            return "event %d %s raised %s" % (j, e, o[1])
+            return ("raises", j, "event %d %s raised %s" % (j, e, o[1]))
         new = o[1]
         if o[2]:
-            return "event %d %s: __exit__ returned a true value (would swallow the exception)" % (j, e)
+            return ("swallows-exception", j, "event %d %s: __exit__ returned a true value (would swallow the exception)" % (j, e))
         if e[0] == "new":
             objk.append(e[1])
             if new != cur:
-                return "constructing %s changed global settings: %s -> %s" % (e[1], cur, new)
+                return ("construct-changes-settings", j, "constructing %s changed global settings: %s -> %s" % (e[1], cur, new))
         elif e[0] == "enter":
             stack.append((e[1], cur))
-            # takes effect + no cross talk
             k = objk[e[1]]
-            touched = [k] if k in meta["prim"] else [p[1] for p in meta["comp_info"][k]["parts"]]
-            ti = {meta["prim"].index(c) for c in touched}
+            ti = {meta["prim"].index(c) for c in c17_spec.touched(meta, k) if c in meta["prim"]}
             if {i: v for i, v in new if i not in ti} != {i: v for i, v in cur if i not in ti}:
-                return "entering %s changed an unrelated setting: %s -> %s" % (k, cur, new)
+                return ("enter-cross-talk", j, "entering %s changed an unrelated setting: %s -> %s" % (k, cur, new))
         else:
             if not stack or stack[-1][0] != e[1]:
                 return None  # not well nested: outside the property
             i, saved = stack.pop()
             if new != saved:
-                return "exit of object %d (%s) restored %s, but %s was in force before its entry" % (i, objk[i], new, saved)
+                return ("exit-not-restored", j, "exit of object %d (%s) restored %s, but %s was in force before its entry" % (i, objk[i], new, saved))
         cur = new
-    return None
-
-
-# documented meaning of the composite constructors' arguments (mirror of spec_composite_args in coq/C17/Laws.v)
-COMP_SPEC = {
-    "fast_computations": lambda a: [("_fast_covar_root_decomposition", [a[0]]), ("_fast_log_prob", [a[1]]), ("_fast_solves", [a[2]])],
-    "linalg_dtypes": lambda a: [("_linalg_dtype_symeig", [a[1] if a[1] is not None else a[0]]),
-                                ("_linalg_dtype_cholesky", [a[2] if a[2] is not None else a[0]])],
-}
-
-
-def effect_failure(real, meta, k, args):
-    """entering a fresh context of class k with args makes the observers report args
-    (composites: every part reports the argument the documentation promises it)"""
-    hist = [("new", k, args), ("enter", 0)]
-    obs = real.run(hist)
-    if any(o[0] == "err" for o in obs):
-        return "construct/enter raised"
-    got = dict(obs[-1][1])
-    if k in meta["prim"]:
-        parts = [(k, args)]
-    elif k in COMP_SPEC and len(args) == len(meta["comp_info"][k]["params"]):
-        parts = COMP_SPEC[k](args)
-    else:
-        return None
-    for pk, pargs in parts:
-        if pk not in meta["prim"]:
-            return None
-        i = meta["prim"].index(pk)
-        kind = meta["kinds"][pk]
-        base = real.base_obs[i]
-        enc = [real.encode(real.decode(a)) for a in pargs]
-        if kind == "KFlag":
-            exp = [enc[0], (not pargs[0])]
-        elif kind == "KValue":
-            exp = [enc[0]]
-        else:
-            exp = [enc[j] if pargs[j] is not None else base[j] for j in range(3)]
-        cur = got.get(i, base)
-        if cur != exp:
-            return "after entering %s(%s) observers of %s report %s, expected %s" % (k, args, pk, cur, exp)
     return None
 
 
@@ -319,7 +304,11 @@ def arg_lit(meta, a):
         return "(VTok %d%%Z)" % meta["consts"].index(a)
     if isinstance(a, bool) or a is None:
         return val_lit(a)
-    return "(VTok %d%%Z)" % a
+    if isinstance(a, (int, float)) and a == 0:
+        return "(VTok 0%Z)"            # token 0 = numeric zero
+    if isinstance(a, int) and a >= 1000:
+        return "(VTok %d%%Z)" % a
+    raise ValueError(a)
 
 
 def case_lit(meta, hist, obs):
@@ -345,9 +334,13 @@ def shard_src(meta, cases):
             "Eval vm_compute in (bad_cases cases 0).\n" % body)
 
 
+
+
 # ----------------------------------------------------------------------------------------
+# the two sets of histories
 
 def histories(ctx, meta):
+    """correspondence set (goes through the Coq shards as well)"""
     rng = random.Random(ctx.seed)
     hs = []
     reps = {"KFlag": ["debug", "deterministic_probes"], "KValue": ["cholesky_max_tries"], "KDtype": ["cholesky_jitter"]}
@@ -380,73 +373,207 @@ def histories(ctx, meta):
     return hs, n_ex
 
 
-def search_real(ctx, meta, hs, real, limit=3):
-    """evaluate the property directly on the implementation; report concrete failing histories"""
-    found = 0
-    seen = set()
-    hs_sorted = sorted(hs, key=len)
-    for h in hs_sorted:
-        obs = real.run(h)
-        f = property_failure(meta, h, obs)
-        if f:
-            key = {"what": f.split(" (")[0][:60], "class": next((e[1] for e in h if e[0] == "new"), None)}
-            sig = (key["what"][:25], meta["kinds"].get(key["class"], "comp"))
-            if sig in seen:
-                continue
-            seen.add(sig)
-            ctx.violation({"kind": "scoping-failure", "history": h, "observed": obs, "what": f}, key=key)
-            found += 1
-            if found >= limit:
-                break
-    for k in list(meta["prim"]) + list(meta["comp"]):
+def pick_values(ctx, meta, n):
+    """the seed only picks the VALUES: n distinct integers >= 1001 that are no constant of the source
+    (distinct from every default and from each other, so that an observation tells which context wrote it)"""
+    rng = random.Random(ctx.seed * 1000003 + 17)
+    vals = []
+    while len(vals) < n:
+        v = rng.randrange(1001, 9000)
+        if repr(v) not in meta["consts"] and v not in vals:
+            vals.append(v)
+    return vals
+
+
+def direct_grid(ctx, meta):
+    """structured grid for the direct comparison with the reference specification (see c17_spec):
+    returns (histories, {family: count})"""
+    S = c17_spec
+    v = pick_values(ctx, meta, 14)
+    vals = [v[0:3], v[3:6], v[6:9]]
+    prim, kinds, comp = meta["prim"], meta["kinds"], meta["comp"]
+    sk2 = S.skeletons(2, 2)
+    sk3 = [s for s in S.skeletons(3, 2) if len(s) == 6]
+    sk4 = [] if ctx.quick else [s for s in S.skeletons(4, 2) if len(s) == 8]
+    out, fam = [], {}
+
+    def add(name, hs):
+        fam[name] = fam.get(name, 0) + len(hs)
+        out.extend(hs)
+
+    reps = [c for c in ("debug", "deterministic_probes", "default_preconditioner", "cholesky_max_tries", "_linalg_dtype_symeig") if c in prim]
+    for kind in ("KFlag", "KValue"):
+        if not any(kinds[c] == kind for c in reps):
+            reps += [c for c in prim if kinds[c] == kind][:1]
+    ndt = 0
+    for k in prim:
+        kind = kinds[k]
+        if kind == "KDtype":
+            full, red = S.dtype_cells(k, vals, 0.0)
+            ndt += 1
+            if ndt <= 2:
+                add("dtype-subsets:" + k, S.family(sk2, sk3 + sk4, full, red))
+            else:
+                add("dtype-subsets-reduced", S.family([], sk2, [], red))
+            tr = [[(k, [vals[j][s] if s in sub[j] else None for s in range(3)]) for j in range(3)]
+                  for sub in (((0,), (1,), (2,)), ((0, 1), (1, 2), (0, 2)), ((), (0, 1, 2), (1,)), ((2,), (0,), (0, 1, 2)))]
+            for t in tr:
+                add("dtype-three-objects", S.triple_histories(t))
+            continue
+        if kind == "KFlag":
+            pool = [(k, [True]), (k, [False])]
+            red = S.pool_cells(pool)
+            t3 = [(k, [True]), (k, [False]), (k, [True])]
+        else:
+            if k.startswith("_linalg_dtype"):
+                pool = [(k, ["torch.float"]), (k, ["torch.half"]), (k, ["torch.double"]), (k, [None])]
+            else:
+                pool = [(k, [v[9]]), (k, [v[10]]), (k, [0]), (k, [None])]
+            red = [(pool[0], pool[1]), (pool[0], pool[3]), (pool[3], pool[1]), (pool[2], pool[0]), (pool[0], pool[0])]
+            t3 = [pool[0], pool[1], pool[2]]
+        if k in reps:
+            add("%s:%s" % (kind, k), S.family(sk2, sk3 + sk4, S.pool_cells(pool), red))
+            add("three-objects", S.triple_histories(t3))
+        else:
+            add("%s-other-classes" % kind, S.family([], sk2, [], red))
+    # composites together with their parts
+    if "fast_computations" in comp:
+        c = "fast_computations"
+        pool = [(c, [True, False, True]), (c, [False, False, False]), (c, [False, True, True]), (c, [True, True, False])]
+        pool += [(p, [False]) for p in S.touched(meta, c)] + [(S.touched(meta, c)[-1], [True])]
+        add("composite+parts:" + c, S.family(sk2, sk3, S.pool_cells(pool), S.pool_cells(pool[:2] + pool[4:6])))
+        add("three-objects", S.triple_histories([pool[0], pool[4], pool[1]]) + S.triple_histories([pool[6], pool[2], pool[7]]))
+    if "linalg_dtypes" in comp:
+        c = "linalg_dtypes"
+        pool = [(c, ["torch.float", None, None]), (c, ["torch.double", "torch.float", None]), (c, ["torch.float", None, "torch.double"]),
+                (c, ["torch.half", "torch.float", "torch.double"]), (c, ["torch.double", "torch.half", "torch.half"])]
+        for p in S.touched(meta, c):
+            pool += [(p, ["torch.float"]), (p, ["torch.half"])]
+        add("composite+parts:" + c, S.family(sk2, sk3, S.pool_cells(pool), S.pool_cells(pool[1:3] + pool[5:7])))
+        add("three-objects", S.triple_histories([pool[1], pool[5], pool[2]]) + S.triple_histories([pool[6], pool[3], pool[8]]))
+    # two different classes (same kind: a class attribute shared through the base class; different kinds)
+    pairs = []
+    byk = {kd: [c for c in prim if kinds[c] == kd] for kd in ("KFlag", "KValue", "KDtype")}
+    for kd in ("KFlag", "KValue", "KDtype"):
+        cs = byk[kd]
+        pairs += [(cs[i], cs[(i + 1) % len(cs)]) for i in range(len(cs))] if len(cs) > 1 else []
+    for a, b in (("debug", "cholesky_max_tries"), ("cholesky_jitter", "deterministic_probes"), ("cholesky_max_tries", "cholesky_jitter"),
+                 ("tridiagonal_jitter", "cholesky_jitter"), ("fast_computations", "debug"), ("linalg_dtypes", "cholesky_max_tries"),
+                 ("fast_computations", "linalg_dtypes")):
+        if a in prim + comp and b in prim + comp:
+            pairs.append((a, b))
+
+    def one_arg(k, j):
+        if k in comp:
+            return arg_pool(meta, k)[1 + j]
+        return {"KFlag": [j == 0], "KValue": ["torch.float" if k.startswith("_linalg_dtype") else v[11 + j]],
+                "KDtype": [vals[j][0], None, vals[j][2]] if j == 0 else [None, vals[j][1], None]}[kinds[k]]
+    for a, b in pairs:
+        cells = [((a, one_arg(a, 0)), (b, one_arg(b, 1))), ((b, one_arg(b, 0)), (a, one_arg(a, 1)))]
+        add("two-classes", S.family(sk2, sk3, cells, cells))
+    if all(c in prim for c in ("debug", "cholesky_max_tries", "cholesky_jitter")):
+        add("three-objects", S.triple_histories([("debug", [False]), ("cholesky_max_tries", [v[9]]), ("cholesky_jitter", [None, vals[0][1], None])]))
+    # every class with every argument of its pool: a plain block
+    for k in prim + comp:
         for a in arg_pool(meta, k):
-            f = effect_failure(real, meta, k, a)
-            if f:
-                ctx.violation({"kind": "no-effect", "class": k, "args": a, "what": f}, key={"what": "no-effect", "class": k})
-                found += 1
-                break
+            add("plain-block", [[("new", k, a), ("enter", 0), ("exit", 0)]])
+    return out, fam
+
+
+# ----------------------------------------------------------------------------------------
+# direct predicate + search
+
+def failure_of(meta, real, h, obs):
+    """(category, event index, text) or None: reference specification first, then the bare scoping predicate
+    (covers contexts for which no specification of the effect is available)"""
+    return c17_spec.spec_failure(meta, real.spec, h, obs) or property_failure(meta, h, obs)
+
+
+def search_real(ctx, meta, hs, real, limit=3):
+    """evaluate the property directly on the implementation; report concrete failing histories: for every kind of
+    failure (category x class kind) the history with the shortest failing prefix, shrunk to a local minimum"""
+    best = {}
+
+    def who(h, f):
+        objk = [e[1] for e in h if e[0] == "new"]
+        ev = h[f[1]]
+        return (ev[1] if ev[0] == "new" else objk[ev[1]]), ev[0]
+    for h in hs:
+        obs = real.run(h)
+        f = failure_of(meta, real, h, obs)
+        if not f:
+            continue
+        sig = (f[0], meta["kinds"].get(who(h, f)[0], "comp"))
+        if sig not in best or f[1] < best[sig][1][1]:
+            best[sig] = (h, f)
+    shrunk = []
+    for sig, (h, f) in best.items():
+        hm, fm = c17_spec.shrink(h, lambda c: failure_of(meta, real, c, real.run(c)),
+                                 dtype_classes=[c for c in meta["prim"] if meta["kinds"][c] == "KDtype"])
+        shrunk.append((len(hm), json.dumps(hm), hm, fm, h))
+    shrunk.sort(key=lambda t: t[:2])
+    found, seen = 0, set()
+    for _, js, hm, fm, h in shrunk:
+        if js in seen:
+            continue
+        seen.add(js)
+        k, evk = who(hm, fm)
+        om = real.run(hm)
+        ctx.violation({"kind": "scoping-failure", "history": hm, "observed": om, "expected": real.spec.run(hm), "what": fm[2],
+                       "category": fm[0], "python": c17_spec.pretty(meta, hm, om), "found_as": h if h != hm else None,
+                       "constants": dict(enumerate(meta["consts"]))},
+                      key={"what": fm[0], "class": k, "event": evk})
+        found += 1
+        if found >= limit:
+            break
     return found
 
 
 def run(ctx):
+    n_obl = len(common.property_obligations("C17"))
     try:
         meta = regenerate()
         tr_err = None
     except settings_tr.Untranslatable as ex:
         meta, tr_err = None, str(ex)
     if meta is None:
-        # fail closed: the model cannot be regenerated -> obligation broken; search the real classes
-        old = os.path.join(common.COQ, "C17", "gen", "settings_meta.json")
+        # fail closed: the model cannot be regenerated -> obligation broken; search the real classes with a class
+        # table obtained by introspection (independent of the translator and of earlier runs)
         ctx.say("translator rejected settings.py:", tr_err)
-        found = 0
-        meta_fb = fallback_meta()
-        if meta_fb is not None:
-            real = Real(meta_fb)
-            hs, _ = histories(ctx, meta_fb)
-            found = search_real(ctx, meta_fb, hs, real)
+        S, B, torch = load_real()
+        meta_i = c17_spec.introspect_meta(S, B, torch)
+        real = Real(meta_i)
+        dg, fam = direct_grid(ctx, meta_i)
+        hs, _ = histories(ctx, meta_i)
+        found = search_real(ctx, meta_i, dg + hs, real)
         if not found:
             ctx.violation({"kind": "translator-rejected-source", "error": tr_err,
                            "obligation": "coq/C17/gen/Settings.v could not be regenerated; C17_scoping is not re-proved"}, no_input=True)
-        ctx.coverage.update({"obligations": 6, "discharged": 0, "checker_cmd": "translator failed", "trusted_base": common.COQ_TRUSTED,
-                             "samples": [tr_err]})
+        ctx.coverage.update({"obligations": n_obl, "discharged": 0, "checker_cmd": "translator failed", "trusted_base": common.COQ_TRUSTED,
+                             "evaluations": len(dg) + len(hs), "distinct_nontrivial": 0, "rule": "translator failed; direct search only",
+                             "samples": [tr_err, "searched %d histories" % (len(dg) + len(hs))]})
         return
     real = Real(meta)
     hs, n_ex = histories(ctx, meta)
+    dg, fam = direct_grid(ctx, meta)
 
     def on_fail(info):
-        return search_real(ctx, meta, hs, real) > 0
+        return search_real(ctx, meta, dg + hs, real) > 0
     ok = common.proof_stage(ctx, on_fail)
-    # correspondence (also run when the proof failed: it localises the disagreement)
-    cases = [(h, real.run(h)) for h in hs]
-    n_wn = 0
-    direct = search_real(ctx, meta, hs, real) if ok else 0
+    direct = search_real(ctx, meta, dg + hs, real) if ok else 0
+    # correspondence (model vs implementation): the correspondence set + a deterministic sample of the direct grid
+    stride = max(1, len(dg) // (1600 if ctx.quick else 12000))
+    chs = hs + dg[::stride]
+    cases = [(h, real.run(h)) for h in chs]
     shards = []
     SH = 400
     for i in range(0, len(cases), SH):
         shards.append(("c17_%d" % (i // SH), shard_src(meta, cases[i:i + SH])))
     mism = []
     if ok:
-        res = common.run_shards(ctx, shards)
+        res = {}
+        for i in range(0, len(shards), 3):          # at most 3 coqc at a time
+            res.update(common.run_shards(ctx, shards[i:i + 3]))
         for si, (name, _) in enumerate(shards):
             rc, out = res[name]
             bad = common.parse_coq_list_of_nat(out) if rc == 0 else None
@@ -456,49 +583,59 @@ def run(ctx):
             mism += [si * SH + b for b in bad]
         for m in mism[:5]:
             h, o = cases[m]
-            f = property_failure(meta, h, o)
+            f = failure_of(meta, real, h, o)
             if f:
-                ctx.violation({"kind": "scoping-failure", "history": h, "observed": o, "what": f},
-                              key={"what": f[:40]})
+                ctx.violation({"kind": "scoping-failure", "history": h, "observed": o, "what": f[2], "category": f[0]},
+                              key={"what": f[0]})
             else:
                 ctx.violation({"kind": "model-implementation-disagreement", "history": h, "observed": o,
                                "correspondence": "coq/C17/Check.v agree (generated model vs real classes)"}, no_input=True)
-    distinct = len({json.dumps(h) for h in hs if len(h) >= 4})
+    allh = {json.dumps(h) for h in hs + dg}
+    distinct = len({x for x in allh if x.count("[\"enter\"") + x.count("[\"exit") + x.count("[\"new\"") >= 4})
+    nobs = sum(len(v) for v in meta["observers"].values())
     ctx.coverage.update({
         "trusted_base": common.COQ_TRUSTED + [
             "translator harness/settings_tr.py (Python ast -> Gallina; fail-closed; class-attribute inheritance resolved statically; base classes assumed never used as contexts themselves)",
-            "Python semantics of with/__enter__/__exit__, class attributes, list.append/pop as modelled in coq/C17/Generic.v (val, vappend, vpop)",
+            "Python semantics of with/__enter__/__exit__, class attributes, truthiness, list append/pop as modelled in coq/C17/Generic.v (val, truthy, vappend, vpop)",
+            "reference specification harness/c17_spec.py (Spec; mirrors spec_enter / spec_composite_args of the Coq development; validated against "
+            "the proven model on every green run: both agree with the implementation on the same histories)",
             "correspondence harness harness/c17.py (event executor, observers, sparse-diff comparator coq/C17/Check.v)"],
-        "evaluations": len(cases), "distinct_nontrivial": distinct,
-        "rule": "well-nested event histories (exhaustive up to length %d over two objects of each representative class kind and composite; "
-                "3 fixed nested/re-entrant patterns for every class; random histories of length 4-30 over all classes, 1 in 5 not well nested); "
-                "non-trivial = at least 4 events; distinct by event list" % (6 if ctx.quick else 7),
+        "evaluations": len(cases) + len(dg) + len(hs), "distinct_nontrivial": distinct,
+        "rule": "correspondence set: well-nested event histories (exhaustive up to length %d over two objects of each representative class kind and composite; "
+                "3 fixed nested/re-entrant patterns for every class; random histories of length 4-30 over all classes, 1 in 5 not well nested) + every "
+                "%d-th history of the direct grid; direct grid: enter/exit skeletons (all balanced shapes with <= %d pairs over two objects, all labellings, "
+                "normal/exceptional/alternating exits) x construction placements (every point up to the first enter) x argument cells (per-dtype: all 8x8 subsets "
+                "of {float,double,half} with pairwise distinct values + zero-valued cells; flags; values incl. 0 and None; composites with their parts; pairs of "
+                "different classes; three objects nested in every order); after every event ALL %d observers of all %d classes are compared with the reference "
+                "specification; non-trivial = at least 4 events; distinct by event list"
+                % (6 if ctx.quick else 7, stride, 3 if ctx.quick else 4, nobs, len(meta["prim"])),
         "exhaustive_histories": n_ex, "mismatches": len(mism), "direct_property_failures": direct,
+        "direct_grid": len(dg), "direct_grid_families": fam, "correspondence_cases": len(cases),
+        "observer_reads_direct": sum(len(h) for h in dg + hs) * nobs,
+        "values_picked_by_seed": pick_values(ctx, meta, 14),
         "classes": len(meta["prim"]) + len(meta["comp"]),
-        "samples": [hs[len(hs) // 3], hs[-1]],
+        "samples": [hs[len(hs) // 3], dg[len(dg) // 2], dg[-1]],
         "traces_validated_against_impl": len(cases),
     })
     ctx.assumptions = ["setting base classes (_feature_flag, _value_context, _dtype_value_context) are not themselves used as contexts",
-                       "single-threaded use (settings are process-global)"]
-
-
-def fallback_meta():
-    p = os.path.join(common.COQ, "C17", "gen", "settings_meta.json")
-    if os.path.exists(p):
-        try:
-            return json.load(open(p))
-        except Exception:
-            return None
-    return None
+                       "single-threaded use (settings are process-global)",
+                       "setting values are scalars / dtypes (no mutable containers), flags are entered with True/False"]
 
 
 def replay(rp):
-    meta = fallback_meta() or regenerate()
+    try:
+        meta = regenerate()
+    except settings_tr.Untranslatable:
+        S, B, torch = load_real()
+        meta = c17_spec.introspect_meta(S, B, torch)
     real = Real(meta)
     h = [tuple(e) for e in rp.get("history", [])]
+    h = [(e[0], e[1], list(e[2])) if e[0] == "new" else e for e in h]
     obs = real.run(h)
-    f = property_failure(meta, h, obs)
+    f = failure_of(meta, real, h, obs)
+    print(c17_spec.pretty(meta, h, obs))
     print("history:", h)
     print("observed:", obs)
-    print("property failure:" if f else "property holds on this history", f or "")
+    print("expected:", real.spec.run(h))
+    print("property failure:" if f else "property holds on this history", f[2] if f else "")
     return 1 if f else 0
